@@ -101,7 +101,8 @@ func (c *compiler) write(bb *strings.Builder, i interface{}) {
 	case uint, uint8, uint16, uint32, uint64, int, int8, int16, int32, int64, float32, float64:
 		bb.Write(unsafeGetBytes(fmt.Sprint(t)))
 	case fmt.Stringer:
-		bb.Write(unsafeGetBytes(t.String()))
+		// what String() returns is plain text, not trusted HTML (that is HTML()'s job)
+		bb.Write(unsafeGetBytes(template.HTMLEscapeString(t.String())))
 	case []string:
 		for _, ii := range t {
 			c.write(bb, ii)
